@@ -7,6 +7,8 @@ set -u
 PATCH=$(readlink -f "$1"); DEMO=$(readlink -f "$2")
 W=/tmp/seedverify.$$
 export CARGO_NET_OFFLINE=true
+# dependencies are built once and shared between verifications; remove /tmp/seedverify-target when done
+export CARGO_TARGET_DIR=/tmp/seedverify-target
 git -C /repo worktree add --detach "$W" HEAD -q || exit 2
 cleanup() { git -C /repo worktree remove --force "$W" 2>/dev/null; rm -rf "$W"; }
 trap cleanup EXIT
@@ -29,5 +31,5 @@ git apply -R "$DEMO" || { echo "RESULT cannot unapply demo"; exit 2; }
 SUITE=$(cargo test --workspace --offline --no-fail-fast 2>&1 | grep -E "^test result" | head -1)
 echo "$SUITE"
 echo "--- hooks-on build"
-if RUSTFLAGS="--cfg tyberiusprime_pypipegraph2_verif -Awarnings" CARGO_TARGET_DIR="$W/target-hooks" cargo build --offline --lib --quiet 2>&1 | tail -5; then HOOKS=ok; else HOOKS=fail; fi
+if RUSTFLAGS="--cfg tyberiusprime_pypipegraph2_verif -Awarnings" CARGO_TARGET_DIR=/tmp/seedverify-target/hooks cargo build --offline --lib --quiet 2>&1 | tail -5; then HOOKS=ok; else HOOKS=fail; fi
 echo "RESULT base=[$BASE_OK] with_change=[$WITH] failing=[$FAILED_TESTS] suite_with_change=[$SUITE] hooks_build=$HOOKS"
